@@ -10,6 +10,7 @@ from vmc.core.report import Report
 
 PROP = "C18"
 ALPHABET = ['"', "'", "\\", "\n", "(", ")", "[", "]", "{", "}", "^", "`", ":", ";", ",", "=", ".", "a", "_", "0", "@", "|",
+            "x", "N",   # with the backslash: Python escape sequences that need more characters (\\x.., \\N{..})
             "²", "₁"]   # code-page characters that str.isnumeric() / \\w accept but Python identifiers and int() do not
 SANCTIONED = re.compile(r"^(VAR_|_lambda_)[A-Za-z0-9_]*$")
 
